@@ -216,6 +216,50 @@ func renameFails(shards int, dir string) []failure {
 	return nil
 }
 
+// lateDestroy (file backend): a cache instance is re-created over the same directory (what a reconfiguration does) and the
+// OLD instance is destroyed only afterwards. The new instance's counters still describe what its directory holds.
+func lateDestroy(shards int, dir string) []failure {
+	cfg := config.NewDefault()
+	ctx, cancel := context.WithCancel(context.Background())
+	defer cancel()
+	old := newCacheLimit("file", cfg, shards, ctx, dir, 1<<30)
+	k1, k2 := cache.FromString("ld-one"), cache.FromString("ld-two")
+	put(old, k1, 30, 1)
+	put(old, k2, 40, 2)
+	metrics.Global.Cache.BytesCached.Set(0)
+	metrics.Global.Cache.CacheEntries.Set(0)
+	ctx2, cancel2 := context.WithCancel(context.Background())
+	defer cancel2()
+	cur := newCacheLimit("file", cfg, shards, ctx2, dir, 1<<30)
+	defer cur.Destroy()
+	put(cur, k1, 50, 3) // the same URLs again: the same file names
+	put(cur, k2, 60, 4)
+	old.Destroy()
+	stored, entries, bs, _, _ := counters(cur)
+	var disk int64
+	files := 0
+	ents, _ := os.ReadDir(dir)
+	for _, de := range ents {
+		if fi, err := de.Info(); err == nil && !de.IsDir() {
+			disk += fi.Size()
+			files++
+		}
+	}
+	readable := 0
+	for _, k := range []cache.CacheKey{k1, k2} {
+		if e, err := cur.Get(k); err == nil {
+			if e.Data != nil {
+				e.Data.Close()
+			}
+			readable++
+		}
+	}
+	if bs != disk || stored != disk || entries != files || readable != entries {
+		return []failure{{"late-destroy-of-old-instance", "file", shards, fmt.Sprintf("a new cache instance over the same directory stored 2 entries (110 bytes), then the OLD instance was destroyed: the directory holds %d bytes in %d files, the live instance reports %d bytes in %d entries (byte counter %d) and can return %d of them", disk, files, stored, entries, bs, readable)}}
+	}
+	return nil
+}
+
 // budgetToZero (memory backend): the memory budget is changed to 0 % at run time with entries stored; whatever the cache
 // then does with its entries, the counters equal what is stored.
 func budgetToZero(shards int) []failure {
@@ -449,6 +493,10 @@ func main() {
 					failures = append(failures, renameFails(shards, dir+"-rf")...)
 					os.RemoveAll(dir + "-rf")
 					dist["rename-fails/file"]++
+					failures = append(failures, lateDestroy(shards, dir+"-ld")...)
+					os.RemoveAll(dir + "-ld")
+					dist["late-destroy-of-old-instance/file"]++
+					total++
 				} else {
 					failures = append(failures, budgetToZero(shards)...)
 					dist["budget-to-zero/memory"]++
@@ -468,7 +516,7 @@ func main() {
 	}
 	out := map[string]any{
 		"harness": "cachesched/" + *flagProp, "seed": *flagSeed, "tier": *flagTier, "total": total, "distinct": total, "distinct_nontrivial": total,
-		"rule":         "forced schedules at the cache API, both backends, 1 and 8 lock shards: C03 lock-wait (Get / GetMetadata wait 400 ms for the entry's lock while the entry's 150 ms lifetime ends: must report stale); C13 overwrite-window (a store of another key between the two counter updates of an overwriting store, cache below its limit throughout: nothing evicted); C12 evict-during-overwrite (an eviction candidate overwritten with another length between scan and removal: counters equal what is stored), rename-fails (file: the temp file vanishes before the final rename, for a new key and for an overwrite) and budget-to-zero (memory: budget changed to 0 % at run time with entries stored); C06 update-during-store (UpdateMetadata issued while a full store of the same key is downloading: afterwards the key holds the new body with the new object metadata)",
+		"rule":         "forced schedules at the cache API, both backends, 1 and 8 lock shards: C03 lock-wait (Get / GetMetadata wait 400 ms for the entry's lock while the entry's 150 ms lifetime ends: must report stale); C13 overwrite-window (a store of another key between the two counter updates of an overwriting store, cache below its limit throughout: nothing evicted); C12 evict-during-overwrite (an eviction candidate overwritten with another length between scan and removal: counters equal what is stored), rename-fails (file: the temp file vanishes before the final rename, for a new key and for an overwrite) late-destroy-of-old-instance (file: a new instance over the same directory, the old one destroyed afterwards) and budget-to-zero (memory: budget changed to 0 % at run time with entries stored); C06 update-during-store (UpdateMetadata issued while a full store of the same key is downloading: afterwards the key holds the new body with the new object metadata)",
 		"distribution": map[string]any{"scenario": dist},
 		"samples":      []any{map[string]any{"backend": "file", "shards": 1}},
 		"files":        []string{}, "readable": []any{},
